@@ -10,10 +10,12 @@ package main
 import (
 	"context"
 	"io"
+	"log/slog"
 	"math/rand"
 	"net"
 	"sync"
 	"sync/atomic"
+	"syscall"
 	"time"
 
 	"github.com/Jigsaw-Code/outline-sdk/transport"
@@ -40,8 +42,12 @@ func runBurst(rounds, n int, seed int64, out string) {
 			defer portMu.Unlock()
 			return ports[conn.RemoteAddr().(*net.TCPAddr).Port]
 		}
+		var logger *slog.Logger
+		if r%2 == 1 {
+			logger = debugLogger() // the server's -verbose
+		}
 		svc, err := service.NewShadowsocksService(service.WithCiphers(ciphers), service.WithReplayCache(&rc),
-			service.WithMetrics(&recServiceMetrics{b: b, c: connID}))
+			service.WithMetrics(&recServiceMetrics{b: b, c: connID}), service.WithLogger(logger))
 		if err != nil {
 			hx.Fatal("NewShadowsocksService: %v", err)
 		}
@@ -149,5 +155,73 @@ func runBurst(rounds, n int, seed int64, out string) {
 		b.mu.Unlock()
 		tr.Emit(map[string]any{"ev": "Burst", "round": r, "n": n, "serveReturned": returned, "accepted": at[0], "startedAtReturn": at[1],
 			"finishedAtReturn": at[2], "finishedLater": atomic.LoadInt32(&finished), "clientsSawEOF": eofs})
+	}
+}
+
+// runAcceptErr: accept errors that are neither net.ErrClosed nor timeouts (EMFILE: the process ran out of descriptors for a
+// moment) are injected between connections by the accept function given to StreamServe.  The listener stays open, so
+// StreamServe must go on accepting: every connection that follows is served (tcp.go:238-244; in TcpConn.tla a failed accept
+// is a stuttering step of the Serve loop: srv stays "accept").
+func runAcceptErr(rounds, n int, seed int64, out string) {
+	rng := rand.New(rand.NewSource(seed))
+	tr := hx.NewTrace(out)
+	defer tr.Close()
+	for r := 0; r < rounds; r++ {
+		_, klist := makeKeys(rng, 3, seed+int64(r), "")
+		ciphers := service.NewCipherList()
+		ciphers.Update(klist)
+		rc := service.NewReplayCache(10)
+		handler := service.NewStreamHandler(service.NewShadowsocksStreamAuthenticator(ciphers, &rc, nil, nil), 2*time.Second)
+		ln, err := net.ListenTCP("tcp", &net.TCPAddr{IP: net.IPv4(127, 0, 0, 1)})
+		if err != nil {
+			hx.Fatal("listen: %v", err)
+		}
+		var served, injected int32
+		calls := 0
+		accept := func() (transport.StreamConn, error) {
+			calls++
+			if calls%2 == 0 && int(atomic.LoadInt32(&injected)) < n { // every second call fails
+				atomic.AddInt32(&injected, 1)
+				return nil, &net.OpError{Op: "accept", Net: "tcp", Addr: ln.Addr(), Err: syscall.EMFILE}
+			}
+			return ln.AcceptTCP()
+		}
+		done := make(chan struct{})
+		go func() {
+			service.StreamServe(accept, func(ctx context.Context, conn transport.StreamConn) {
+				handler.Handle(ctx, conn, nil)
+				atomic.AddInt32(&served, 1)
+			})
+			close(done)
+		}()
+		eofs := 0
+		early := false
+		for i := 0; i < n; i++ { // one client after the other: each must be served although accept failed in between
+			c, err := net.DialTCP("tcp", nil, ln.Addr().(*net.TCPAddr))
+			if err != nil {
+				continue
+			}
+			time.Sleep(10 * time.Millisecond)
+			c.CloseWrite()
+			c.SetReadDeadline(time.Now().Add(1500 * time.Millisecond))
+			if _, err := io.Copy(io.Discard, c); err == nil {
+				eofs++
+			}
+			c.Close()
+			select {
+			case <-done:
+				early = true // StreamServe ended although nobody closed the listener
+			default:
+			}
+		}
+		ln.Close()
+		returned := true
+		select {
+		case <-done:
+		case <-time.After(3 * time.Second):
+			returned = false
+		}
+		tr.Emit(map[string]any{"ev": "AcceptErr", "round": r, "n": n, "injected": injected, "served": atomic.LoadInt32(&served),
+			"clientsSawEOF": eofs, "serveEndedWithListenerOpen": early, "serveReturned": returned})
 	}
 }
